@@ -1,4 +1,5 @@
 """C10 — replica swaps use the exact Metropolis probability and swap only configurations."""
+from checks import big_scale
 from checks import pure_fns
 from checks import api_cov
 from checks import scale_inv
@@ -71,4 +72,5 @@ def main(ck):
         ck.assumptions.append("probability = threshold/2^52 of a uniform 52-bit grid draw (accept_grid); f64 rounding of division/powi absorbed by the 1e-9 tolerance")
     api_cov.run(ck, "c10")   # otherwise unexercised public API, model-free oracles of this property
     scale_inv.run(ck, "c10")   # power-of-two unit change: identical trajectory, energies exactly scaled (model-free twin oracle)
+    big_scale.run(ck, "manyops")   # large-scale regime (>65536 bonds/ops/slots, release semantics): model-free oracles of the property statements
     return ck.finish(RULE)
